@@ -34,38 +34,86 @@ const (
 	c06Str
 	c06Named
 	c06Struct
+	// the remaining kinds stored in a frame's integer slots (Env.Ints): used by the address / re-entrancy
+	// families only (c06Kinds, the alphabet of the call matrix, stays {int, string, named int, struct})
+	c06Bool
+	c06Int8
+	c06Int16
+	c06Int32
+	c06Int64
+	c06Uint
+	c06Uint8
+	c06Uint16
+	c06Uint32
+	c06Uint64
+	c06Uintptr
+	c06Float32
+	c06Float64
+	c06Complex64
+	c06Complex128
 )
 
 var c06Kinds = []c06K{c06Int, c06Str, c06Named, c06Struct}
 
-func (k c06K) code() string { return "isnt"[k : k+1] }
+// c06SlotKinds: the 15 basic kinds besides int that live in integer slots.
+var c06SlotKinds = []c06K{c06Bool, c06Int8, c06Int16, c06Int32, c06Int64, c06Uint, c06Uint8, c06Uint16, c06Uint32, c06Uint64, c06Uintptr,
+	c06Float32, c06Float64, c06Complex64, c06Complex128}
 
-func (k c06K) name() string { return [...]string{"int", "string", "named", "struct"}[k] }
+// c06AllKinds = c06Kinds + c06SlotKinds
+var c06AllKinds = append(append([]c06K{}, c06Kinds...), c06SlotKinds...)
+
+var c06KNames = [...]string{"int", "string", "named", "struct", "bool", "int8", "int16", "int32", "int64", "uint", "uint8", "uint16", "uint32", "uint64", "uintptr",
+	"float32", "float64", "complex64", "complex128"}
+
+func (k c06K) code() string {
+	if k <= c06Struct {
+		return "isnt"[k : k+1]
+	}
+	return "<" + c06KNames[k] + ">"
+}
+
+func (k c06K) name() string { return c06KNames[k] }
+
+func (k c06K) isInteger() bool { return k >= c06Int8 && k <= c06Uintptr }
+func (k c06K) isFloat() bool   { return k == c06Float32 || k == c06Float64 }
+func (k c06K) isComplex() bool { return k == c06Complex64 || k == c06Complex128 }
+func (k c06K) floatOf() string {
+	if k == c06Complex64 {
+		return "float32"
+	}
+	return "float64"
+}
 
 // typ is the type expression (named types carry the program id: top-level names are unique per corpus).
 func (k c06K) typ(id string) string {
 	switch k {
-	case c06Int:
-		return "int"
-	case c06Str:
-		return "string"
 	case c06Named:
 		return "N_" + id
+	case c06Struct:
+		return "T_" + id
 	}
-	return "T_" + id
+	return c06KNames[k]
 }
 
-// lit is a literal of the kind carrying the small number n.
+// lit is a literal (constant expression, except for structs) of the kind carrying the small number n.
 func (k c06K) lit(id string, n int) string {
-	switch k {
-	case c06Int:
+	switch {
+	case k == c06Int:
 		return strconv.Itoa(n)
-	case c06Str:
+	case k == c06Str:
 		return strconv.Quote("s" + strconv.Itoa(n))
-	case c06Named:
+	case k == c06Named:
 		return fmt.Sprintf("N_%s(%d)", id, n)
+	case k == c06Struct:
+		return fmt.Sprintf("T_%s{%d, %q}", id, n, "t"+strconv.Itoa(n))
+	case k == c06Bool:
+		return strconv.FormatBool(n%2 == 1)
+	case k.isInteger():
+		return fmt.Sprintf("%s(%d)", c06KNames[k], n%100) // fits every width
+	case k.isFloat():
+		return fmt.Sprintf("%s(%d.5)", c06KNames[k], n)
 	}
-	return fmt.Sprintf("T_%s{%d, %q}", id, n, "t"+strconv.Itoa(n))
+	return fmt.Sprintf("%s(complex(%d, 1))", c06KNames[k], n)
 }
 
 // tlit is lit with the evaluation recorded as trace point tp (evaluation order / exactly-once).
@@ -77,48 +125,62 @@ func (k c06K) tlit(id string, tp, n int) string {
 		return fmt.Sprintf("Ts(%d, %q)", tp, "s"+strconv.Itoa(n))
 	case c06Named:
 		return fmt.Sprintf("N_%s(Ti(%d, %d))", id, tp, n)
+	case c06Struct:
+		return fmt.Sprintf("T_%s{Ti(%d, %d), %q}", id, tp, n, "t"+strconv.Itoa(n))
 	}
-	return fmt.Sprintf("T_%s{Ti(%d, %d), %q}", id, tp, n, "t"+strconv.Itoa(n))
+	return k.from(id, fmt.Sprintf("Ti(%d, %d)", tp, n))
 }
 
 // dig is an int expression digesting the value of expression e.
 func (k c06K) dig(e string) string {
-	switch k {
-	case c06Int:
+	switch {
+	case k == c06Int:
 		return e
-	case c06Str:
+	case k == c06Str:
 		return fmt.Sprintf("int(%s[len(%s)-1])", e, e)
-	case c06Named:
-		return "int(" + e + ")"
+	case k == c06Struct:
+		return fmt.Sprintf("(%s.A + len(%s.B))", e, e)
+	case k == c06Bool:
+		return fmt.Sprintf("len(map[bool]string{true: \"x\"}[%s])", e)
+	case k.isComplex():
+		return "int(real(" + e + "))"
 	}
-	return fmt.Sprintf("(%s.A + len(%s.B))", e, e)
+	return "int(" + e + ")" // named int, integers, floats
 }
 
-// from builds a value of the kind from the non-negative int expression e.
+// from builds a value of the kind from the non-negative int expression e (evaluated once except for structs).
 func (k c06K) from(id, e string) string {
-	switch k {
-	case c06Int:
+	switch {
+	case k == c06Int:
 		return "(" + e + ")"
-	case c06Str:
+	case k == c06Str:
 		return fmt.Sprintf("tb_%s[(%s)%%4]", id, e)
-	case c06Named:
+	case k == c06Named:
 		return fmt.Sprintf("N_%s(%s)", id, e)
+	case k == c06Struct:
+		return fmt.Sprintf("T_%s{%s, tb_%s[(%s)%%4]}", id, e, id, e)
+	case k == c06Bool:
+		return fmt.Sprintf("((%s)%%2 == 1)", e)
+	case k.isComplex():
+		return fmt.Sprintf("complex(%s(%s), 1)", k.floatOf(), e)
 	}
-	return fmt.Sprintf("T_%s{%s, tb_%s[(%s)%%4]}", id, e, id, e)
+	return fmt.Sprintf("%s(%s)", c06KNames[k], e) // conversions of non-constant ints wrap, identically on both sides
 }
 
 // next is a statement changing variable v to a different value of its kind.
 func (k c06K) next(v string) string {
 	switch k {
-	case c06Int, c06Named:
-		return v + " = " + v + "*2 + 1"
 	case c06Str:
 		return v + " = " + v + " + \"!\""
+	case c06Bool:
+		return v + " = !" + v
+	case c06Struct:
+		if strings.HasPrefix(v, "*") {
+			v = "(" + v + ")"
+		}
+		return v + ".A = " + v + ".A*2 + 1"
 	}
-	if strings.HasPrefix(v, "*") {
-		v = "(" + v + ")"
-	}
-	return v + ".A = " + v + ".A*2 + 1"
+	return v + " = " + v + "*2 + 1"
 }
 
 func c06Prelude(id string) string {
@@ -179,6 +241,8 @@ func c06Corpus(c *core.Ctx) []oracle.Prog {
 	progs = append(progs, c06NamedResultPrograms(c)...)
 	progs = append(progs, c06RecursionPrograms(c)...)
 	progs = append(progs, c06EscapePrograms(c)...)
+	progs = append(progs, c06ReenterPrograms(c)...)
+	progs = append(progs, c06ReplPrograms(c)...)
 	if f := os.Getenv("VERIF_C06_FAMILY"); f != "" { // development aid: restrict to one family
 		var sel []oracle.Prog
 		for _, p := range progs {
@@ -263,6 +327,10 @@ func init() {
 			"(recursion) depth {1,31,32,33,70} × 7 shapes with locals verified after return; " +
 			"(escape) one to three escaping things (closure at depth 0..3 with 5 closure signatures, or &local) × captured kind × scope {param, local, nested block, loop body, for-header} × route {return, slice, global} " +
 			"× intervening calls k∈{0,1,31,32,33,64} sequential or recursive, each thing used (read+write) twice with intervening calls in between; " +
+			"(escape2 nested) one maker called twice: thing {&v, closure, pointer-receiver method value v.PM} × kind of v (int,string,named,struct + the 15 other integer-slot kinds bool…complex128: full product kind × frame distance 0..4) " +
+			"× owner of v {param, local, named result, block variable, for-header variable, file-level variable} × chain of nested frames between owner and site over {block, for, if, switch, range, type switch, select, func literal} (all single wrappers, successor pairs, depth 3 and 4; thorough: all 64 pairs × all kinds × all owners); " +
+			"(reenter) one call site re-entered during the evaluation of its own argument k (direct recursion / through a function literal) or during the callee: arity 1..4 × results 0..2 × every k × callee form {declared, file-level func variable, local func variable, method, method value, interface method, variadic 0/1 fixed, s..., compiled variadic, compiled fixed} × kind {int, struct; thorough all four}, and one result of every basic kind; " +
+			"(repl) address/closure of a file-level variable of every kind taken in one Eval, 1100 integer-slot variables declared by the next Eval, then used; " +
 			"non-trivial = distinct (family, class parameters, Go result) triples (programs that differ only in route or kind of intervening calls and behave identically count once), escape programs without intervening calls excluded",
 		Gen: c06Corpus,
 		Sig: c06Sig,
@@ -280,11 +348,15 @@ func init() {
 		Runner: func(p *oracle.Prog) twin.Result {
 			c06InstallPoison()
 			defer c06UninstallPoison()
+			if c06IsRepl(p) {
+				return c06RunRepl(twin.NewFast(), p)
+			}
 			return twin.Run(twin.NewFast(), p)
 		},
 		Assume: []string{
 			"frame poisoning (fast.VerifHooks.FreeEnv, build tag verif) is active unless VERIF_C06_POISON=0; it only makes stale reads visible, a correct interpreter is unaffected",
 			"mutually recursive top-level functions are not generated (declaration order is C16's subject); recursion through a function variable is",
+			"family repl: the chunks of the program body (separated by //--) are evaluated as successive top-level Evals of one interpreter; compiled Go runs them as one function body",
 		},
 	})
 }
